@@ -739,6 +739,8 @@ pub fn run(bodies: Vec<Body>, strategy: &mut dyn Strategy, cfg: &RunCfg) -> RunR
                     } else {
                         "panic".to_string()
                     };
+                    // a panic that unwound out of a delivery leaves the thread's handler depth > 0
+                    let msg = if st.threads[i].depth > 0 { format!("HANDLER: {}", msg) } else { msg };
                     st.threads[i].panicked = Some(msg);
                 }
                 st.threads[i].status = Status::Done;
@@ -1099,6 +1101,7 @@ pub struct Replay {
     pub codes: Vec<String>,
     pub pos: usize,
     pub diverged: bool,
+    pub diverged_at: usize,
 }
 
 impl Replay {
@@ -1107,6 +1110,7 @@ impl Replay {
             codes,
             pos: 0,
             diverged: false,
+            diverged_at: 0,
         }
     }
 }
@@ -1118,6 +1122,9 @@ impl Strategy for Replay {
             self.pos += 1;
             if let Some(i) = view.choices.iter().position(|c| &c.code() == want) {
                 return i;
+            }
+            if !self.diverged {
+                self.diverged_at = self.pos;
             }
             self.diverged = true;
         }
